@@ -2167,10 +2167,14 @@ impl<R: Read> Vp8Decoder<R> {
         }
 
         //do loop filtering
-        for mby in 0..self.mbheight as usize {
-            for mbx in 0..self.mbwidth as usize {
-                let mb = self.macroblocks[mby * self.mbwidth as usize + mbx];
-                self.loop_filter(mbx, mby, &mb);
+        // A frame-level filter strength of zero disables the loop filter for the whole frame,
+        // whatever the per-segment levels and deltas say.
+        if self.frame.filter_level != 0 {
+            for mby in 0..self.mbheight as usize {
+                for mbx in 0..self.mbwidth as usize {
+                    let mb = self.macroblocks[mby * self.mbwidth as usize + mbx];
+                    self.loop_filter(mbx, mby, &mb);
+                }
             }
         }
 
